@@ -218,6 +218,7 @@ func (c *Ctx) runWorkerOnce(dir, tag string, todo []bcase, perCase time.Duration
 	}
 	cmd.Stderr = errF
 	cmd.Env = append(os.Environ(), "GOTRACEBACK=all", "GOMAXPROCS=2")
+	cmd.Env = append(cmd.Env, c.BatchEnv...)
 	cmd.SysProcAttr = &syscall.SysProcAttr{Setpgid: true}
 	stdout, _ := cmd.StdoutPipe()
 	if err := cmd.Start(); err != nil {
